@@ -234,7 +234,7 @@ def oracle(ctx, inp, out):
 def run(ctx):
     rng = ctx.rng
     cases = [fill(c) for c in CORPUS]
-    for _ in range(ctx.budget(300, 6000)):
+    for _ in range(ctx.budget(240, 6000)):
         cases.append(gen_case(rng, addext=rng.chance(1, 4)))
     ins = [c[0] for c in cases]
     outs = ctx.impl("symbols", ins)
